@@ -120,7 +120,49 @@ func (fr *Frame) call(v ssa.Value, cc *ssa.CallCommon, st *State, ins ssa.Instru
 		return
 	}
 	name := callee.String()
+	if fr.top && c.fc != nil {
+		for _, ac := range c.fc.AtCalls {
+			match, nth := ac.Match, 0
+			if i := strings.Index(match, "#"); i >= 0 {
+				fmt.Sscanf(match[i+1:], "%d", &nth)
+				match = match[:i]
+			}
+			if strings.Contains(name, match) {
+				if c.atCallSeen == nil {
+					c.atCallSeen = map[string]int{}
+				}
+				key := ac.Match + "|" + ac.C.Label
+				c.atCallSeen[key]++
+				if nth > 0 && c.atCallSeen[key] != nth {
+					continue
+				}
+				en := &Env{c: c, vars: map[string]Term{}, cur: st, old: c.entry, pkg: c.fc.PkgPath}
+				for k, v := range c.params {
+					en.vars[k] = v
+				}
+				for k, v := range c.lets {
+					en.vars[k] = v
+				}
+				blk := fr.curBlock
+				stc := st
+				en.lookup = func(n string) (Term, bool) { return fr.localAtEnd(blk, n, stc) }
+				g, err := en.EvalBool(ac.C.E)
+				if err != nil {
+					c.errorf("at_call %s %q: %v", ac.Match, ac.C.Src, err)
+					continue
+				}
+				c.obligation("at-call", ac.C.Label, pos, "before the call to "+shortFuncName(name)+": "+ac.C.Src, st.reach, g, ac.C.Props)
+			}
+		}
+	}
 	switch name {
+	case "sort.Slice", "sort.SliceStable", "sort.Strings", "sort.Ints", "slices.Sort":
+		// in-place sort of a slice: afterwards the slice holds a permutation of its former elements
+		// (skolemised both ways); the order itself is not modelled.
+		if fr.sortPermute(cc.Args[0], st) {
+			c.callees[name] = "built-in: permutes the slice in place (order not modelled)"
+			return
+		}
 	case "math.Ceil":
 		// exact on the reals (A-ARITH: float64 treated as mathematical; exact below 2^53)
 		x := fr.term(cc.Args[0], st).S
@@ -393,6 +435,11 @@ func (fr *Frame) applyContract(fc *FuncContract, callee *ssa.Function, sig *type
 			c.errorf("%s: requires %q of %s: %v", fr.fn.Name(), r.Src, short, err)
 			continue
 		}
+		if c.fc != nil && !c.fc.NoPanic {
+			// assume_nopanic: the safety of calls (callee preconditions) is assumed as well
+			st.reach = c.define("reach", "Bool", and(st.reach, g))
+			continue
+		}
 		o := c.obligation("pre@"+short, "", pos, "", st.reach, g, r.Props)
 		o.Note = "requires " + r.Src
 		if fr.tag != "" {
@@ -455,6 +502,22 @@ func (fr *Frame) applyContract(fc *FuncContract, callee *ssa.Function, sig *type
 			continue
 		}
 		c.assume(st.reach, g)
+	}
+	if fc.Defines != "" && len(results) == 1 {
+		// result == spec(args...): the function is pure and deterministic (its frame is proved), so its
+		// result is a function of its arguments; the spec function is that function's name.
+		var argExprs []Expr
+		if callee != nil {
+			for _, p := range callee.Params {
+				argExprs = append(argExprs, EIdent{p.Name()})
+			}
+		}
+		g, err := post.EvalBool(EBin{"==", EIdent{"result"}, ECall{fc.Defines, argExprs}})
+		if err != nil {
+			c.errorf("%s: defines %s of %s: %v", fr.fn.Name(), fc.Defines, short, err)
+		} else {
+			c.assume(st.reach, g)
+		}
 	}
 	// references returned are allocated or nil
 	for _, r := range results {
@@ -707,6 +770,38 @@ func (fr *Frame) callAlts(v ssa.Value, alts []altFn, cc *ssa.CallCommon, st *Sta
 			out = append(out, Term{c.define(fr.tag+v.Name()+"alt", r.Sort, term), r.Sort, r.Ty})
 		}
 		fr.setResult(v, out)
+	}
+	return true
+}
+
+// sortPermute models an in-place sort of the slice value v: new contents p with the same length such that
+// every element of p occurs in the old contents and vice versa.
+func (fr *Frame) sortPermute(v ssa.Value, st *State) bool {
+	c := fr.c
+	// sort.Slice takes an interface: look through MakeInterface
+	if mi, ok := v.(*ssa.MakeInterface); ok {
+		v = mi.X
+	}
+	old := fr.term(v, st)
+	if !c.ss.IsSeq(old.Sort) {
+		return false
+	}
+	S := string(old.Sort)
+	p := c.freshConst("sorted", old.Sort)
+	fwd := c.fresh("perm")
+	inv := c.fresh("perminv")
+	c.emit(fmt.Sprintf("(declare-fun %s (Int) Int)", fwd))
+	c.emit(fmt.Sprintf("(declare-fun %s (Int) Int)", inv))
+	on := c.define("presort", S, old.S)
+	c.emit(fmt.Sprintf("(assert (= (%s.len %s) (%s.len %s)))", S, p, S, on))
+	c.emit(fmt.Sprintf("(assert (forall ((i Int)) (! (=> (and (<= 0 i) (< i (%s.len %s))) (and (<= 0 (%s i)) (< (%s i) (%s.len %s)) (= (%s.at %s i) (%s.at %s (%s i))))) :pattern ((%s.at %s i)))))", S, p, fwd, fwd, S, on, S, p, S, on, fwd, S, p))
+	c.emit(fmt.Sprintf("(assert (forall ((j Int)) (! (=> (and (<= 0 j) (< j (%s.len %s))) (and (<= 0 (%s j)) (< (%s j) (%s.len %s)) (= (%s.at %s (%s j)) (%s.at %s j)))) :pattern ((%s.at %s j)))))", S, on, inv, inv, S, p, S, p, inv, S, on, S, on))
+	key := "sl:" + fr.tag + v.Name()
+	c.heapSort[key] = S
+	c.heapSet(st, key, p)
+	if lv, ok := fr.prov[v]; ok && fr.provValid(v, st) {
+		fr.store(lv, st, p)
+		fr.provStamp(v, st)
 	}
 	return true
 }
